@@ -13,8 +13,8 @@ import (
 )
 
 var (
-	regFlags         = regexp.MustCompile(`flags=\(([^)]+)\)`)
-	regProfileHeader = regexp.MustCompile(` {\n`)
+	regFlags      = regexp.MustCompile(`flags=\(([^)]+)\)`)
+	regHeaderLine = regexp.MustCompile(`(?m)^[\t ]*(profile[\t ]|hat[\t ]|\^).*\{[\t ]*$`)
 )
 
 type Complain struct {
@@ -31,18 +31,34 @@ func init() {
 }
 
 func (b Complain) Apply(opt *Option, profile string) (string, error) {
-	flags := []string{}
-	matches := regFlags.FindStringSubmatch(profile)
-	if len(matches) != 0 {
-		flags = strings.Split(matches[1], ",")
+	return rewriteHeaderFlags(profile, func(flags []string) ([]string, bool) {
 		if slices.Contains(flags, "complain") {
-			return profile, nil
+			return flags, false
 		}
-	}
-	flags = append(flags, "complain")
-	strFlags := " flags=(" + strings.Join(flags, ",") + ") {\n"
+		return append(flags, "complain"), true
+	}), nil
+}
 
-	// Remove all flags definition, then set manifest' flags
-	profile = regFlags.ReplaceAllLiteralString(profile, "")
-	return regProfileHeader.ReplaceAllLiteralString(profile, strFlags), nil
+// rewriteHeaderFlags applies fn to the flags of every profile, sub-profile and hat
+// header line, each on its own: fn returns the new flags and whether they changed.
+func rewriteHeaderFlags(profile string, fn func(flags []string) ([]string, bool)) string {
+	return regHeaderLine.ReplaceAllStringFunc(profile, func(header string) string {
+		flags := []string{}
+		matches := regFlags.FindStringSubmatch(header)
+		if len(matches) != 0 {
+			flags = strings.Split(matches[1], ",")
+		}
+		flags, changed := fn(flags)
+		if !changed {
+			return header
+		}
+
+		// Remove the flags definition, then set the new flags
+		header = regFlags.ReplaceAllLiteralString(header, "")
+		head := header[:strings.LastIndex(header, "{")]
+		if len(flags) == 0 {
+			return strings.TrimRight(head, "\t ") + " {"
+		}
+		return strings.TrimSuffix(head, " ") + " flags=(" + strings.Join(flags, ",") + ") {"
+	})
 }
